@@ -19,7 +19,7 @@ TRUSTED_BASE = [
 
 PROPS = {
     'C12': dict(
-        sub='xfer', n_quick=3000, n_thorough=40000,
+        cmd='c12', n_quick=3000, n_thorough=40000,
         explanation='theorems over Model/Xfer.v for all pipes/payloads; correspondence of the model with xfer.XferPipe, md5 and test filters on generated pipes',
         assumptions=[
             'gzip (compress/gzip) is a library: its inversion is a hypothesis of C12_pipe_roundtrip (inverts f), exercised on every generated case',
